@@ -9,6 +9,7 @@ import (
 	"go/types"
 	"sort"
 	"strings"
+	"sync"
 )
 
 // Value is a symbolic value: Term, *Closure, *FuncRef or Tuple.
@@ -83,6 +84,7 @@ type frame struct {
 	results  []*types.Var
 	loops    []*loopCtx
 	loopOrd  []int // counters for loop ordinals at each nesting level
+	dynLoops int
 	depth    int
 	tsubst   map[string]types.Type
 	sig      *types.Signature
@@ -122,6 +124,10 @@ type VC struct {
 	anchorHits map[string]int
 	loopDirect map[types.Object]bool // variables directly assigned in the loop being entered
 	pureAx     map[string]bool
+	symCache   [][]string
+	symMu      sync.Mutex
+	pcTab      *pcDefTable
+	pcScanned  int
 }
 
 func newVC(w *World, fi *FuncInfo, fc *FuncContract) *VC {
